@@ -10,7 +10,9 @@ Inductive action :=
 | RemovedOther          (* HandleValueRemoved of such a value: the Go code does not look at the value *)
 | RunAcquire            (* body of one goroutine spawned by HandleValueAdded *)
 | RunRelease            (* one spawned `go e.rigidRef.Release()` runs *)
-| Disposed.             (* HandleInstanceDisposed *)
+| Disposed              (* HandleInstanceDisposed *)
+| SetNil (k : nat).     (* fault injection: the next k di.AddReference(nil, false) calls return nil
+                           (the interface says "will never return nil"; the code stores what it gets) *)
 
 Record state := mk {
   links : list nat;     (* ghost: MountedLink values currently attached to the directive instance *)
@@ -22,11 +24,12 @@ Record state := mk {
   pending : nat;        (* acquisition goroutines spawned and not yet run *)
   releasing : nat;      (* `go Release()` goroutines spawned and not yet run *)
   acquired : nat;       (* ghost: number of di.AddReference(nil, false) calls so far *)
-  released : nat        (* ghost: number of Release() calls on those references so far *)
+  released : nat;       (* ghost: number of Release() calls on those references so far *)
+  nil_budget : nat      (* ghost: upcoming AddReference(nil, false) calls that return nil *)
 }.
 
 (* handleEstablishLink has stored the weak reference in handler.ref *)
-Definition init : state := mk [] 0 0 false true false 0 0 0 0.
+Definition init : state := mk [] 0 0 false true false 0 0 0 0 0.
 
 Fixpoint remove_one (x : nat) (l : list nat) : list nat :=
   match l with
@@ -43,7 +46,7 @@ Definition on_removed (s : state) (links' : list nat) (others' : nat) : state :=
   let vc := Nat.pred s.(val_count) in
   let rel := Nat.eqb vc 0 && s.(rigid) in
   mk links' others' vc (if rel then false else s.(rigid)) s.(has_ref) s.(disposed)
-     s.(pending) (s.(releasing) + b2n rel) s.(acquired) s.(released).
+     s.(pending) (s.(releasing) + b2n rel) s.(acquired) s.(released) s.(nil_budget).
 
 (* what the Go code does on each callback / goroutine body, whatever the environment sends *)
 Definition code_step (s : state) (a : action) : state :=
@@ -51,29 +54,36 @@ Definition code_step (s : state) (a : action) : state :=
   | Added id =>
       (* valCount++; nrr := rigidRef == nil; unlock; if nrr { go acquire } *)
       mk (id :: s.(links)) s.(others) (S s.(val_count)) s.(rigid) s.(has_ref) s.(disposed)
-         (s.(pending) + b2n (negb s.(rigid))) s.(releasing) s.(acquired) s.(released)
+         (s.(pending) + b2n (negb s.(rigid))) s.(releasing) s.(acquired) s.(released) s.(nil_budget)
   | AddedOther =>
       (* !ok || vl == nil: return *)
       mk s.(links) (S s.(others)) s.(val_count) s.(rigid) s.(has_ref) s.(disposed)
-         s.(pending) s.(releasing) s.(acquired) s.(released)
+         s.(pending) s.(releasing) s.(acquired) s.(released) s.(nil_budget)
   | Removed id => on_removed s (remove_one id s.(links)) s.(others)
   | RemovedOther => on_removed s s.(links) (Nat.pred s.(others))
   | RunAcquire =>
       (* if !disposed && valCount != 0 && rigidRef == nil { rigidRef = di.AddReference(nil, false) } *)
-      let acq := negb s.(disposed) && negb (Nat.eqb s.(val_count) 0) && negb s.(rigid) in
+      let want := negb s.(disposed) && negb (Nat.eqb s.(val_count) 0) && negb s.(rigid) in
+      (* the call returns nil while the fault budget lasts: rigidRef stays nil *)
+      let isnil := want && negb (Nat.eqb s.(nil_budget) 0) in
+      let acq := want && Nat.eqb s.(nil_budget) 0 in
       mk s.(links) s.(others) s.(val_count) (s.(rigid) || acq) s.(has_ref) s.(disposed)
          (Nat.pred s.(pending)) s.(releasing) (s.(acquired) + b2n acq) s.(released)
+         (if isnil then Nat.pred s.(nil_budget) else s.(nil_budget))
   | RunRelease =>
       mk s.(links) s.(others) s.(val_count) s.(rigid) s.(has_ref) s.(disposed)
-         s.(pending) (Nat.pred s.(releasing)) s.(acquired) (S s.(released))
+         s.(pending) (Nat.pred s.(releasing)) s.(acquired) (S s.(released)) s.(nil_budget)
   | Disposed =>
       (* disposed = true; if e.ref == nil return; e.ref = nil; if rigidRef != nil { go Release; rigidRef = nil } *)
       if s.(has_ref) then
         mk s.(links) s.(others) s.(val_count) false false true
-           s.(pending) (s.(releasing) + b2n s.(rigid)) s.(acquired) s.(released)
+           s.(pending) (s.(releasing) + b2n s.(rigid)) s.(acquired) s.(released) s.(nil_budget)
       else
         mk s.(links) s.(others) s.(val_count) s.(rigid) false true
-           s.(pending) s.(releasing) s.(acquired) s.(released)
+           s.(pending) s.(releasing) s.(acquired) s.(released) s.(nil_budget)
+  | SetNil k =>
+      mk s.(links) s.(others) s.(val_count) s.(rigid) s.(has_ref) s.(disposed)
+         s.(pending) s.(releasing) s.(acquired) s.(released) k
   end.
 
 (* what the environment (directive instance, Go scheduler) can do in a state:
@@ -88,6 +98,7 @@ Definition env_ok (s : state) (a : action) : bool :=
   | RunAcquire => Nat.ltb 0 s.(pending)
   | RunRelease => Nat.ltb 0 s.(releasing)
   | Disposed => true
+  | SetNil _ => true
   end.
 
 Definition step (s : state) (a : action) : option state :=
@@ -101,6 +112,10 @@ Fixpoint run (s : state) (acts : list action) : option state :=
 
 (* only MountedLink values are ever attached (EstablishLinkWithPeerValue = MountedLink) *)
 Definition link_action (a : action) : bool :=
+  match a with AddedOther | RemovedOther | SetNil _ => false | _ => true end.
+
+(* as link_action, but AddReference may return nil *)
+Definition safe_action (a : action) : bool :=
   match a with AddedOther | RemovedOther => false | _ => true end.
 
 (* strong references of this handler that the directive instance still counts *)
